@@ -26,6 +26,7 @@ from .interp import (Interp, Hooks, Opaque, Str, Slot, Tup, Const, Cmp, IsNone, 
                      FALSE, fold_cond, COND_TYPES, Outcome, type_of)
 from .poly import Sym
 from .model import AnalysisError
+from .loops import UnrollMixin
 
 PORT = Opaque('PORT', (), 'obj')
 ERR0 = Str.lit('<error recorded earlier>')
@@ -238,7 +239,16 @@ def summarise_outcome(o):
     return Summary(classify_ret(o.value), err_set, port_open, wrote, None, n_io, o.value)
 
 
-class EBB3Hooks(Hooks):
+class EBB3Hooks(UnrollMixin, Hooks):
+    """Loops whose test is decided by the abstract state (bounded handshake attempts, counted
+    loops) are unrolled exactly; all others are summarised by havoc."""
+    unroll = True
+    fork_undecided = True
+
+    def loop(self, interp, node, st):
+        self._forked = False
+        return self.unroll_loop(interp, node, st)
+
     def __init__(self, engine, inject=True, summarised=PRIMITIVES, exclude=None):
         self.engine = engine
         self.inject = inject
